@@ -54,6 +54,22 @@ Proof. reflexivity. Qed.
 Lemma lenN_be4 n : lenN (be4 n) = 4.
 Proof. reflexivity. Qed.
 
+(* ------------------------------------------------------------------ the generated Size() bodies *)
+Lemma Z_of_N_eqb et c : (0 <= c)%Z -> (Z.of_N et =? c)%Z = (et =? Z.to_N c).
+Proof.
+  intros Hc. destruct (Z.eqb_spec (Z.of_N et) c), (N.eqb_spec et (Z.to_N c)); try reflexivity; exfalso; lia.
+Qed.
+
+(* UserControl.Size(): 2 bytes event type + 1 (FMS event 0x1a) or 4, + 4 for SetBufferLength *)
+Lemma uc_size_spec et :
+  uc_size et = 2 + (if et =? etFmsEvent0 then 1 else 4) + (if et =? etSetBufferLength then 4 else 0).
+Proof.
+  unfold uc_size, Gen_rtmp.rtmp_UserControl_Size, etFmsEvent0, etSetBufferLength.
+  rewrite !Z_of_N_eqb by (vm_compute; discriminate).
+  destruct (et =? Z.to_N Gen_rtmp.rtmp_EventTypeFmsEvent0);
+    destruct (et =? Z.to_N Gen_rtmp.rtmp_EventTypeSetBufferLength); reflexivity.
+Qed.
+
 (* ------------------------------------------------------------------ c03_size *)
 Lemma lenN_enc_opt o : lenN (enc_opt o) = size_opt o.
 Proof. destruct o; cbn [enc_opt size_opt]; [apply amf0_size_enc|reflexivity]. Qed.
@@ -71,7 +87,7 @@ Proof.
     rewrite ?lenN_app, ?lenN_enc_variant, ?lenN_enc_hdr, ?lenN_enc_opt, ?lenN_enc_oprops, ?amf0_size_enc;
     try reflexivity; try lia.
   - (* user control *)
-    unfold uc_size. destruct (et =? etFmsEvent0), (et =? etSetBufferLength); reflexivity.
+    rewrite uc_size_spec. destruct (et =? etFmsEvent0), (et =? etSetBufferLength); reflexivity.
 Qed.
 
 (* ------------------------------------------------------------------ round trip: headers *)
@@ -199,11 +215,11 @@ Proof.
     + destruct args as [a|]; [discriminate|]. cbn [enc_opt]. rewrite app_nil_r.
       rewrite after_variant_none; [|exact Hn|exact Ht]. reflexivity.
   - (* createStream *)
-    destruct H as [[[Hn Ht] Ho] Hs].
-    apply N.ltb_lt in Ht. destruct obj as [o|]; [|discriminate].
-    unfold new_create_stream. cbn [unmarshal].
-    rewrite <- (app_nil_r (enc_variant name tid (Some o))).
-    rewrite um_variant_some; [|exact Hn|exact Ht|exact Ho]. reflexivity.
+    destruct H as [[Hn Ht] Ho].
+    apply N.ltb_lt in Ht. unfold new_create_stream. cbn [unmarshal]. destruct obj as [o|].
+    + rewrite <- (app_nil_r (enc_variant name tid (Some o))).
+      rewrite um_variant_some; [|exact Hn|exact Ht|exact Ho]. reflexivity.
+    + rewrite um_variant_none; [|exact Hn|exact Ht]. reflexivity.
   - (* createStream response *)
     destruct H as [[[[Hn Ht] Ho] Hs] Hsid].
     apply N.ltb_lt in Ht. apply N.ltb_lt in Hsid. destruct obj as [o|]; [|discriminate].
@@ -237,7 +253,7 @@ Proof.
     destruct H as [[He Hd] Hx].
     apply N.ltb_lt in He. unfold new_user_control. cbn [unmarshal be2 app].
     assert (Het : ube2 ((et / 256) mod 256) (et mod 256) = et) by (apply ube2_be2; exact He).
-    rewrite Het. unfold uc_size.
+    rewrite Het. rewrite uc_size_spec.
     destruct (et =? etFmsEvent0) eqn:E1; destruct (et =? etSetBufferLength) eqn:E2.
     + apply N.eqb_eq in E1. apply N.eqb_eq in E2. rewrite E1 in E2. discriminate.
     + apply N.ltb_lt in Hd. apply N.eqb_eq in Hx. subst x. cbn.
@@ -383,7 +399,7 @@ Proof.
   cbn [unmarshal]. destruct data as [|a [|b body]]; try apply np_err.
   destruct (is_nil body) eqn:Eb; [apply np_err|].
   destruct (lenN (a :: b :: body) <? uc_size (ube2 a b)) eqn:El; [apply np_err|].
-  apply N.ltb_ge in El. rewrite !lenN_cons in El. unfold uc_size in El.
+  apply N.ltb_ge in El. rewrite !lenN_cons in El. rewrite uc_size_spec in El.
   destruct (ube2 a b =? etFmsEvent0) eqn:E1.
   - destruct body as [|c r]; [discriminate|]. cbn [bind].
     destruct (ube2 a b =? etSetBufferLength) eqn:E2; cbn [bind]; [|apply np_ok].
